@@ -173,6 +173,30 @@ def run(ctx):
                 sets[trav] = set(keys)
             if len(sets) == 2 and sets["bfs"] != sets["dfs"]:
                 ctx.oracle_fail("bfs and dfs return different entries with `symlinks`", {"tree": t, "links": ["%s -> %s" % (a, b) for a, b in links]})
+            # two roots with `symlinks` that share directories (a root and one of its own sub-directories, or the same
+            # root twice): still every real directory at most once per query, and nothing reachable is lost
+            subdirs = [n["rel"] for n in snap.nodes if n["kind"] == "d" and n["rel"].startswith("root/")]
+            second = os.path.join(top, r.choice(subdirs)) if subdirs and r.chance(2, 3) else root_abs
+            first, other = (root_abs, second) if r.chance(1, 2) else (second, root_abs)
+            trav2 = r.choice(["bfs", "dfs"])
+            q2 = "select path from %s symlinks %s, %s symlinks %s into list" % (first, trav2, other, trav2)
+            ctx.case((t, q2))
+            r2 = common.run_cli([q2], cwd=top, scratch=scratch)
+            case2 = {"argv": [q2], "cwd": ".", "links": ["%s -> %s" % (a, b) for a, b in links], "tree": [n["rel"] for n in snap.nodes][:40]}
+            if r2["timed_out"] or common.panicked(r2) or r2["status"] != 0:
+                ctx.oracle_fail("two roots with `symlinks`: crash, hang or bad status", case2, detail={"status": r2["status"], "err": r2["err"][:300].decode("utf-8", "replace")})
+            else:
+                rows2 = [x.decode("utf-8", "surrogateescape") for x in r2["out"].split(b"\0")[:-1]]
+                keys2 = [(os.path.realpath(os.path.dirname(p)), os.path.basename(p)) for p in rows2]
+                want2 = reachable_entries(os.path.realpath(first)) | reachable_entries(os.path.realpath(other))
+                if len(set(keys2)) != len(keys2):
+                    dup = sorted(k for k in set(keys2) if keys2.count(k) > 1)[:3]
+                    ctx.oracle_fail("two roots with `symlinks`: an entry is listed more than once in one query", case2,
+                                    detail={"duplicates": [os.path.join(*k) for k in dup]})
+                elif set(keys2) != want2:
+                    ctx.oracle_fail("two roots with `symlinks`: rows are not exactly the entries of the directories reachable from the roots", case2,
+                                    detail={"missing": [os.path.join(*k) for k in sorted(want2 - set(keys2))[:5]],
+                                            "unexpected": [os.path.join(*k) for k in sorted(set(keys2) - want2)[:5]]})
             # depth windows with links: model only
             # `mindepth 1` is no restriction: level 1 is the smallest level there is, also behind a link that leads above the root
             spelled, cwd = r.choice(spellings)
